@@ -7,6 +7,7 @@
 -/
 import GeoProofs.Lemmas.GenKernel
 import GeoProofs.Lemmas.TRANCoordPos
+import GeoProofs.Lemmas.TRANArea
 import GeoModel.Contains
 import GeoModel.Gen.Masks
 import GeoModel.Gen.Enums
@@ -646,5 +647,17 @@ boundary count, then `is_inside`) regenerated from its Rust body, applied to the
 theorem coordinatePosition_eq_source (g : Geom) (p : Pt) :
     coordPos g p = Gen.coordinatePosition (calcPos g) p :=
   Geo.Proofs.TRANCoordPos.coordPos_eq g p
+
+/-- [T] (translator tie) the hand-written `contains` bodies `Line: Contains<Coord>`, `Line: Contains<Line>`,
+`Rect: Contains<Polygon>` (loop over the exterior coordinates with early `return false` and the `points_inside` counter)
+and `Triangle: Intersects<Coord>` (orientations of `to_lines()`, `sort()`, the `windows(2).any(..)` test), regenerated
+from the Rust bodies on this run, equal the model functions. -/
+theorem contains_kernels_eq_source :
+    (∀ a b c, lineContainsCoord a b c = Gen.lineContainsCoord a b c) ∧
+    (∀ a b c d, lineContainsLine a b c d = Gen.lineContainsLine a b c d) ∧
+    (∀ mn mx q, rectContainsPolygon mn mx q = Gen.rectContainsPolygon mn mx q) ∧
+    (∀ a b c p, triCoord a b c p = Gen.triangleCoord a b c p) :=
+  ⟨Geo.Proofs.TRANArea.lineContainsCoord_eq, Geo.Proofs.TRANArea.lineContainsLine_eq,
+   Geo.Proofs.TRANArea.rectContainsPolygon_eq, Geo.Proofs.TRANArea.triCoord_eq⟩
 
 end Geo.Proofs.C02
